@@ -2,7 +2,12 @@
 //! `Vec` / `Box<[T]>` members, whether its `Poisonable` wrappers are poisoned, a path and a write position.  The value is
 //! built with drop-counting payloads numbered in declared order; the harness prints the structure as a term of the
 //! model (`coq/VTree.v`), what the path handed back (payloads and Ok / Err markers in declared order) and the drop
-//! counters.  Line: `t <id> <type> <vlen> <poison 0|1> <path> <wpos|->`.
+//! counters.  Line: `t <id> <type> <vlen> <poison 0|1>[k<a|lock id>] <path> <wpos|->`.
+//!
+//! `k`: the named lock (or every lock) is *killed* before the path runs - its raw lock panicked in a release, so the
+//! lock refuses every later acquisition.  The value paths must not depend on that: the model has no such bit, and the
+//! paths that would have to lock the structure skip the locking step.  The raw locks of this module are minimal
+//! spinning locks (the module is single-threaded) whose exclusive release panics once on request.
 
 use std::cell::Cell;
 use std::sync::atomic::Ordering::SeqCst;
@@ -10,16 +15,84 @@ use std::sync::atomic::Ordering::SeqCst;
 use happylock::collection::{BoxedLockCollection, OwnedLockCollection, RetryingLockCollection};
 use happylock::lockable::{Lockable, LockableGetMut, LockableIntoInner, OwnedLockable, RawLock};
 use happylock::poisonable::{PoisonError, Poisonable};
-use happylock::{Mutex, RwLock, ThreadKey};
+use happylock::ThreadKey;
 
 use crate::values::{DC, DROPS};
+
+thread_local! {
+	static KILL_NEXT: Cell<bool> = const { Cell::new(false) };
+}
+fn release_panics() {
+	if KILL_NEXT.with(|k| k.replace(false)) {
+		std::panic::resume_unwind(Box::new("raw release panics"));
+	}
+}
+/// a minimal spinning mutex (this module is single-threaded); an exclusive release panics, before releasing, when asked to
+pub struct FM(std::sync::atomic::AtomicBool);
+unsafe impl lock_api::RawMutex for FM {
+	#[allow(clippy::declare_interior_mutable_const)]
+	const INIT: Self = FM(std::sync::atomic::AtomicBool::new(false));
+	type GuardMarker = lock_api::GuardSend;
+	fn lock(&self) {
+		while !self.try_lock() {
+			std::thread::yield_now();
+		}
+	}
+	fn try_lock(&self) -> bool {
+		self.0.compare_exchange(false, true, SeqCst, SeqCst).is_ok()
+	}
+	unsafe fn unlock(&self) {
+		release_panics();
+		self.0.store(false, SeqCst)
+	}
+}
+/// the same for a reader-writer lock: -1 = held exclusively, n > 0 = n readers
+pub struct FR(std::sync::atomic::AtomicIsize);
+unsafe impl lock_api::RawRwLock for FR {
+	#[allow(clippy::declare_interior_mutable_const)]
+	const INIT: Self = FR(std::sync::atomic::AtomicIsize::new(0));
+	type GuardMarker = lock_api::GuardSend;
+	fn lock_shared(&self) {
+		while !self.try_lock_shared() {
+			std::thread::yield_now();
+		}
+	}
+	fn try_lock_shared(&self) -> bool {
+		let n = self.0.load(SeqCst);
+		n >= 0 && self.0.compare_exchange(n, n + 1, SeqCst, SeqCst).is_ok()
+	}
+	unsafe fn unlock_shared(&self) {
+		self.0.fetch_sub(1, SeqCst);
+	}
+	fn lock_exclusive(&self) {
+		while !self.try_lock_exclusive() {
+			std::thread::yield_now();
+		}
+	}
+	fn try_lock_exclusive(&self) -> bool {
+		self.0.compare_exchange(0, -1, SeqCst, SeqCst).is_ok()
+	}
+	unsafe fn unlock_exclusive(&self) {
+		release_panics();
+		self.0.store(0, SeqCst)
+	}
+}
+type Mutex<T> = happylock::mutex::Mutex<T, FM>;
+type RwLock<T> = happylock::rwlock::RwLock<T, FR>;
 
 pub struct Builder {
 	next: u32,
 	cell: u32,
 	vlen: usize,
 	poison: bool,
+	/// the lock to kill (u32::MAX: every lock)
+	kill: Option<u32>,
 	key: Option<ThreadKey>,
+}
+impl Builder {
+	fn kills(&self, id: u32) -> bool {
+		self.kill == Some(id) || self.kill == Some(u32::MAX)
+	}
 }
 
 /// a type that can be built with numbered payloads, describing itself as a `vt` term
@@ -32,7 +105,16 @@ impl VT for Mutex<DC> {
 		let id = b.next;
 		b.next += 1;
 		d.push_str(&format!("TLock ({id}, 0)"));
-		Mutex::new(DC { id, ver: 0 })
+		let m = Mutex::new(DC { id, ver: 0 });
+		if b.kills(id) {
+			let mut key = b.key.take().unwrap();
+			KILL_NEXT.with(|k| k.set(true));
+			let r = std::panic::catch_unwind(std::panic::AssertUnwindSafe(|| m.scoped_lock(&mut key, |_| ())));
+			assert!(r.is_err());
+			assert!(m.scoped_try_lock(&mut key, |_| ()).is_err(), "the lock was not killed");
+			b.key = Some(key);
+		}
+		m
 	}
 }
 impl VT for RwLock<DC> {
@@ -40,7 +122,16 @@ impl VT for RwLock<DC> {
 		let id = b.next;
 		b.next += 1;
 		d.push_str(&format!("TLock ({id}, 0)"));
-		RwLock::new(DC { id, ver: 0 })
+		let m = RwLock::new(DC { id, ver: 0 });
+		if b.kills(id) {
+			let mut key = b.key.take().unwrap();
+			KILL_NEXT.with(|k| k.set(true));
+			let r = std::panic::catch_unwind(std::panic::AssertUnwindSafe(|| m.scoped_write(&mut key, |_| ())));
+			assert!(r.is_err());
+			assert!(m.scoped_try_write(&mut key, |_| ()).is_err(), "the lock was not killed");
+			b.key = Some(key);
+		}
+		m
 	}
 }
 impl<T: VT + Lockable + RawLock> VT for Poisonable<T> {
@@ -369,11 +460,15 @@ where
 	let mut key = b.key.take().unwrap();
 	match path {
 		"drop" => {
-			key = t.lock_once(key);
+			if b.kill.is_none() {
+				key = t.lock_once(key);
+			}
 			drop(t);
 		}
 		"drop_unwinding" => {
-			key = t.lock_once(key);
+			if b.kill.is_none() {
+				key = t.lock_once(key);
+			}
 			let r = std::panic::catch_unwind(std::panic::AssertUnwindSafe(move || {
 				let _t = t;
 				std::panic::resume_unwind(Box::new(0u8));
@@ -535,7 +630,8 @@ table! {
 
 pub fn run(line: &str) -> String {
 	let t: Vec<&str> = line.split_whitespace().collect();
-	let (id, ty, vlen, poison, path) = (t[1], t[2].parse::<usize>().unwrap(), t[3].parse::<usize>().unwrap(), t[4] == "1", t[5]);
+	let (id, ty, vlen, poison, path) = (t[1], t[2].parse::<usize>().unwrap(), t[3].parse::<usize>().unwrap(), t[4].starts_with('1'), t[5]);
+	let kill: Option<u32> = t[4].split_once('k').map(|(_, s)| if s == "a" { u32::MAX } else { s.parse().unwrap() });
 	let wpos: Option<usize> = t.get(6).and_then(|x| x.parse().ok());
 	for d in DROPS.iter() {
 		d.store(0, SeqCst);
@@ -543,7 +639,7 @@ pub fn run(line: &str) -> String {
 	let mut out: Vec<String> = vec![];
 	let mut desc = String::new();
 	let r = std::panic::catch_unwind(std::panic::AssertUnwindSafe(|| {
-		let mut b = Builder { next: 0, cell: 0, vlen, poison, key: Some(ThreadKey::get().unwrap()) };
+		let mut b = Builder { next: 0, cell: 0, vlen, poison, kill, key: Some(ThreadKey::get().unwrap()) };
 		dispatch(ty, &mut b, &mut desc, path, wpos, &mut out);
 		drop(b.key.take());
 	}));
